@@ -259,15 +259,19 @@ ResetSync ==
   /\ last' = [k |-> "Reset", x |-> 0, y |-> 0, res |-> "-"]
   /\ UNCHANGED <<br, b, a0>>
 
-\* an arbitrary run of k consecutive headers of the tree ending in x is pushed at A (an unsolicited, late or
-\* hostile Headers message): it is stored only if it connects to what A has
-Byz(x, k) ==
+\* an arbitrary run of k consecutive headers of the tree ending in x - optionally with its g-th header left out
+\* (1 < g < k; g = 0: nothing left out) - is pushed at A (an unsolicited, late or hostile Headers message): it is
+\* stored only if every header connects to what A has or to an earlier header of the batch, and then entirely
+Gapped(x, k, g) == LET s == LastK(x, k) IN
+                   IF g = 0 THEN s ELSE [j \in 1..(k - 1) |-> IF j < g THEN s[j] ELSE s[j + 1]]
+Byz(x, k, g) ==
   /\ net.phase = "idle"
   /\ used.byz < MaxByz
   /\ k \in 1..Height(x) /\ k <= MaxHeaders
-  /\ LET r == Receive(a, LastK(x, k)) IN
+  /\ (g = 0 \/ (1 < g /\ g < k))
+  /\ LET r == Receive(a, Gapped(x, k, g)) IN
        /\ a' = r.nd
-       /\ last' = [k |-> "Byz", x |-> x, y |-> k, res |-> r.res]
+       /\ last' = [k |-> "Byz", x |-> x, y |-> k, z |-> g, res |-> r.res]
   /\ used' = [used EXCEPT !.byz = @ + 1]
   /\ rounds' = 0
   /\ UNCHANGED <<br, b, net, a0>>
@@ -284,7 +288,7 @@ Init == /\ br = <<>>
 Protocol == BuildLocator \/ LocateHeaders \/ ReceiveHeaders
 Disturb == \/ \E from \in Ids, len \in Lens, d \in Diffs : Reorg(from, len, d)
            \/ ResetSync
-           \/ \E x \in Ids, k \in 1..MaxHeaders : Byz(x, k)
+           \/ \E x \in Ids, k \in 1..MaxHeaders, g \in 0..MaxHeaders : Byz(x, k, g)
 Next == \/ \E la \in Lens, da \in Diffs : MintA(la, da)
         \/ \E f \in 0..a0, lb \in Lens, db \in Diffs : MintB(f, lb, db)
         \/ Protocol
